@@ -8,6 +8,9 @@ func checkC11(c *Check) {
 	c.Rule = "TLC (RulesGen.tla, alphabets AlphaArr*) enumerates, for every array type, every sequence of chunk headers (lengths 0-3, 9, 16; final or not) and data events (pieces of 1-4 byte UTF-8 characters, invalid bytes, empty, short and long data) up to the length bound, plus whole single-event arrays with right and wrong byte counts; the model validates UTF-8 with a byte-at-a-time DFA whose state is carried across data events and must be at a character boundary at every chunk end; each behaviour is replayed into rules.NewRules. non-trivial = all (each contains an array)"
 	c.Assumptions = []string{"abs/concretiser of harness/abs.go", "TLC", "Utf8.tla DFA as the definition of valid UTF-8 (RFC 3629)", "bounded number of chunk/data events"}
 	reasons := []string{"array"}
+	for _, a := range []string{"AlphaArrString", "AlphaArrRref", "AlphaArrBin"} {
+		runRulesMC(c, a, map[string]int{"quick": 8, "thorough": 10}[c.Tier], defaultLim, "FilterArrays", "arrays/"+a)
+	}
 	n := 6
 	if c.Tier == "thorough" {
 		n = 8
